@@ -4,6 +4,7 @@
   `cells`; what has to be shown is *which* slot an operation touches and that it touches no other.
 -/
 import AnyVecModel.Proofs.Exec
+import AnyVecModel.Proofs.KernelApiAccess
 namespace AnyVec
 namespace C13
 open World
@@ -82,6 +83,32 @@ def sampleWorld : World := { vecs := [sampleVec], created := 13 }
 example : (step { size := 8, align := 8, hasDrop := true } (.swapb 0 0 2) sampleWorld).1.vis 0
     = [.val 12, .val 11, .val 10] := by decide
 example : (step { size := 8, align := 8, hasDrop := true } (.get 0 1 false) sampleWorld).2 = .ok ["11"] := by decide
+
+/-- **source tie**: the bounds of the element accessors are the source's on this run: `get(i)` / `get_mut(i)` hand out
+`get_unchecked(i)` / `get_unchecked_mut(i)` exactly when `i < len` and `None` otherwise; `at` / `at_mut` are
+`get(i).unwrap()` / `get_mut(i).unwrap()`; the typed accessors go through the typed slice (whose extent is `len`,
+see C12); the model's `get`/`at` answer accordingly. -/
+theorem accessors_are_the_source (cfg : Cfg) (w : World) (v i : Nat) (d : VecSt) (hv : w.vecs[v]? = some d)
+    (hl : d.live = true) :
+    (Gen.Kernel.anyvec_get_trace d.len i = [.branch (decide (i < d.len)) [.call "get_unchecked" [i], .retSome] [.retNone]] ∧
+     Gen.Kernel.anyvec_get_mut_trace d.len i =
+       [.branch (decide (i < d.len)) [.call "get_unchecked_mut" [i], .retSome] [.retNone]] ∧
+     Gen.Kernel.anyvec_at_trace d.len i = [.call "get" [i], .unwrap] ∧
+     Gen.Kernel.anyvec_at_mut_trace d.len i = [.call "get_mut" [i], .unwrap] ∧
+     Gen.Kernel.typed_get_trace d.len i = [.call "as_slice" [], .call "get" [i]] ∧
+     Gen.Kernel.typed_get_mut_trace d.len i = [.call "as_mut_slice" [], .call "get_mut" [i]] ∧
+     Gen.Kernel.typed_at_trace d.len i = [.call "get" [i], .unwrap] ∧
+     Gen.Kernel.typed_at_mut_trace d.len i = [.call "get_mut" [i], .unwrap] ∧
+     Gen.Kernel.anyvec_iter_trace d.len i = [.call "Iter::new" [0, d.len]] ∧
+     Gen.Kernel.anyvec_iter_mut_trace d.len i = [.call "Iter::new" [0, d.len]]) ∧
+    (¬ i < d.len → step cfg (.get v i false) w = (w, .ok ["N"]) ∧
+      step cfg (.get v i true) w = WM.panic "called `Option::unwrap()` on a `None` value" w) ∧
+    (i < d.len → step cfg (.get v i false) w = (do let id ← readElem v i; pure [cfg.tok id] : WM Out) w ∧
+      step cfg (.get v i true) w = step cfg (.get v i false) w) := by
+  have a := KernelTie.anyvec_access_tie d.len i
+  have t := KernelTie.typed_access_tie d.len i
+  have g := KernelTie.get_tie cfg w v i d hv hl
+  exact ⟨⟨g.1, a.2.1, a.2.2.1, a.2.2.2.1, t.1, t.2.1, t.2.2.1, t.2.2.2.1, a.2.2.2.2.1, a.2.2.2.2.2.1⟩, g.2.1, g.2.2⟩
 
 end C13
 end AnyVec
